@@ -151,8 +151,8 @@ Proof.
   assert (Hstep : forall e1, (e1 = EClaim (s_acc s) \/ e1 = EDrop (s_acc s)) ->
      forall err pi, Flow s [e1; ERet err]
        match s_q s with
-       | Some a => let (fd, q'0) := q_pop a in mkS fd q'0 (s_pollin s) (s_closing s) (s_ipc s)
-       | None => mkS (-1) None pi (s_closing s) (s_ipc s)
+       | Some a => let (fd, q'0) := q_pop a in mkS fd q'0 (s_pollin s) (s_closing s) (s_ipc s) (s_rearm s)
+       | None => mkS (-1) None pi (s_closing s) (s_ipc s) (s_rearm s)
        end).
   { intros e1 He1 err pi. destruct (s_q s) as [a|] eqn:Eq.
     - destruct (q_pop a) as [fd q'] eqn:Ep.
@@ -163,7 +163,7 @@ Proof.
       + unfold Sinv; cbn [s_acc s_q]. split; [intros; lia|]. split; [exact P2|].
         rewrite held_cons by (cbn; lia). cbn [s_acc s_q]. inversion NN; assumption.
       + rewrite Hh. cbn [oqheld]. rewrite <- P1.
-        rewrite (held_cons (mkS fd q' _ _ _)) by (cbn; lia). cbn [s_acc s_q].
+        rewrite (held_cons (mkS fd q' _ _ _ _)) by (cbn; lia). cbn [s_acc s_q].
         destruct He1; subst e1; cbn; rewrite app_nil_r; reflexivity.
     - split.
       + unfold Sinv, held; cbn. split; [reflexivity|]. split; [exact I|constructor].
@@ -466,7 +466,7 @@ Proof.
     rewrite arrivals_app, departs_app, app_assoc, F1, <- app_assoc, F2, app_assoc. reflexivity.
 Qed.
 
-Lemma init_inv ipc ao al oo : Forall acc_ok ao -> Xinv (init ipc ao al oo).
+Lemma init_inv rx ipc ao al oo : Forall acc_ok ao -> Xinv (init_v rx ipc ao al oo).
 Proof.
   intros F. constructor; cbn; [|unfold A4; cbn; intros; reflexivity|exact F].
   unfold Sinv, held; cbn. repeat split; constructor.
@@ -475,13 +475,13 @@ Qed.
 (* FIFO: the descriptors libuv stored, in arrival order, are those that left
    its hands (claimed, released by a failing uv_accept, closed by uv_close), in
    that order, followed by those it still holds. *)
-Theorem fifo kind ipc ao al oo os beh :
+Theorem fifo rx kind ipc ao al oo os beh :
   Forall acc_ok ao -> Forall op_ok os ->
-  let '(x, tr) := run kind (init ipc ao al oo) os beh in
+  let '(x, tr) := run kind (init_v rx ipc ao al oo) os beh in
   Xinv x /\ arrivals tr = departs tr ++ held (sv x).
 Proof.
-  intros Fa Fo. destruct (run kind (init ipc ao al oo) os beh) as [x tr] eqn:E.
-  destruct (run_flow _ _ _ _ _ _ (init_inv ipc ao al oo Fa) Fo E) as (X & F & _).
+  intros Fa Fo. destruct (run kind (init_v rx ipc ao al oo) os beh) as [x tr] eqn:E.
+  destruct (run_flow _ _ _ _ _ _ (init_inv rx ipc ao al oo Fa) Fo E) as (X & F & _).
   split; [exact X|]. cbn in F. exact F.
 Qed.
 
@@ -515,14 +515,14 @@ Proof.
   - (* EShutC *) eapply Permutation_trans; [|apply Permutation_middle]. constructor. exact IH.
 Qed.
 
-Theorem conservation kind ipc ao al oo os beh :
+Theorem conservation rx kind ipc ao al oo os beh :
   Forall acc_ok ao -> Forall op_ok os ->
-  let '(x, tr) := run kind (init ipc ao al oo) os beh in
+  let '(x, tr) := run kind (init_v rx ipc ao al oo) os beh in
   Permutation (handed tr) (claimed tr ++ held (sv x) ++ closed tr) /\
   (NoDup (handed tr) -> NoDup (claimed tr ++ held (sv x) ++ closed tr)).
 Proof.
-  intros Fa Fo. pose proof (fifo kind ipc ao al oo os beh Fa Fo) as H.
-  destruct (run kind (init ipc ao al oo) os beh) as [x tr]. destruct H as (_ & H).
+  intros Fa Fo. pose proof (fifo rx kind ipc ao al oo os beh Fa Fo) as H.
+  destruct (run kind (init_v rx ipc ao al oo) os beh) as [x tr]. destruct H as (_ & H).
   assert (P : Permutation (handed tr) (claimed tr ++ held (sv x) ++ closed tr)).
   { eapply Permutation_trans; [apply handed_split|]. rewrite H.
     eapply Permutation_trans with ((departs tr ++ sheds tr) ++ held (sv x)).
@@ -658,9 +658,9 @@ Proof.
   destruct (step_flow _ _ _ _ _ _ X Ho E) as (_ & _ & H). exact H.
 Qed.
 
-Theorem cb_per_connection kind ao al oo os beh :
+Theorem cb_per_connection rx kind ao al oo os beh :
   Forall acc_ok ao -> Forall op_ok os ->
-  cb_ok (snd (run kind (init false ao al oo) os beh)) = true.
+  cb_ok (snd (run kind (init_v rx false ao al oo) os beh)) = true.
 Proof.
   intros Fa Fo.
   assert (G : forall os x, Xinv x -> Forall op_ok os -> s_ipc (sv x) = false ->
@@ -677,60 +677,89 @@ Proof.
 Qed.
 
 (* ------------------------------------------------------------------ *)
-(* A4, the other direction (POLLIN is re-armed when nothing is held).  It holds as
-   long as no uv_accept fails; a failing uv_accept (client handle busy) leaves the
-   server without POLLIN and without a pending connection (DESIGN section 3, 24). *)
+(* A4, the other direction (POLLIN is re-armed when nothing is held).  In the current code
+   it holds as long as no uv_accept fails: a failing uv_accept (client handle busy) leaves the
+   server without POLLIN and without a pending connection (DESIGN section 3, 24).  In the
+   variant [s_rearm = true] (notes/C07_fix_accept_rearm.diff) it holds for every script. *)
 Definition B4 (s : stream) : Prop := s_closing s = false -> s_acc s = -1 -> s_pollin s = true.
 
 Definition no_busy_op (o : op) : bool := match o with OAccept ClBusy => false | _ => true end.
 Definition no_busy (os : list op) : bool := forallb no_busy_op os.
+(* [fx]: the stream is the repaired variant; then every operation is fine *)
+Definition okop (fx : bool) (o : op) : bool := fx || no_busy_op o.
+Definition okops (fx : bool) (os : list op) : bool := forallb (okop fx) os.
+
+Lemma exec_simple_rearm kind s o s' e : exec_simple kind s o = (s', e) -> s_rearm s' = s_rearm s.
+Proof.
+  intros H. destruct o; cbn [exec_simple] in H; try (inversion H; subst; reflexivity).
+  - unfold uv_accept in H. destruct (s_acc s =? -1); [inversion H; subst; reflexivity|].
+    destruct c; inversion H; subst; try reflexivity;
+      (destruct (s_q s) as [a|]; [destruct (q_pop a)|]; reflexivity).
+  - destruct (s_closing s); inversion H; subst; reflexivity.
+Qed.
+
+Lemma exec_cb_rearm kind os : forall s s' e, exec_cb kind s os = (s', e) -> s_rearm s' = s_rearm s.
+Proof.
+  induction os as [|o r IH]; intros s s' e H; cbn [exec_cb] in H.
+  - inversion H; subst; reflexivity.
+  - destruct (exec_simple kind s o) as [s1 e1] eqn:E1.
+    destruct (exec_cb kind s1 r) as [s2 e2] eqn:E2. inversion H; subst.
+    rewrite (IH _ _ _ E2). eapply exec_simple_rearm; eauto.
+Qed.
 
 Lemma exec_simple_B4 kind s o s' e :
-  Sinv s -> no_busy_op o = true -> B4 s -> exec_simple kind s o = (s', e) -> B4 s'.
+  Sinv s -> okop (s_rearm s) o = true -> B4 s -> exec_simple kind s o = (s', e) -> B4 s'.
 Proof.
   intros I Hn B H. destruct o; cbn [exec_simple] in H; try (inversion H; subst; exact B).
   - unfold uv_accept in H. destruct (Z.eqb_spec (s_acc s) (-1)) as [E|E]; [inversion H; subst; exact B|].
-    destruct c; try discriminate Hn; inversion H; subst; clear H; [|exact B].
     destruct I as (A3 & Q & NN). rewrite held_cons in NN by exact E.
-    destruct (s_q s) as [a|].
-    + destruct (q_pop a) as [fd q'] eqn:Ep. destruct (q_pop_spec a fd q' Q Ep) as (P1 & _).
-      cbn [oqheld] in NN. rewrite <- P1 in NN.
-      assert (0 <= fd) by (inversion NN as [|? ? _ T]; inversion T; assumption).
-      unfold B4; cbn. intros; lia.
+    assert (Pop : forall a fd q', s_q s = Some a -> q_pop a = (fd, q') -> 0 <= fd).
+    { intros a fd q' Ea Ep. rewrite Ea in Q, NN. destruct (q_pop_spec a fd q' Q Ep) as (P1 & _).
+      cbn [oqheld] in NN. rewrite <- P1 in NN. inversion NN as [|? ? _ T]; inversion T; assumption. }
+    destruct c; inversion H; subst; clear H; try exact B;
+      (destruct (s_q s) as [a|] eqn:Ea;
+       [destruct (q_pop a) as [fd q'] eqn:Ep; pose proof (Pop a fd q' eq_refl Ep);
+        unfold B4; cbn; intros; lia|]).
     + unfold B4; cbn. intros; reflexivity.
+    + (* busy client: only the repaired variant gets here *)
+      unfold okop in Hn. cbn in Hn. rewrite orb_false_r in Hn. unfold B4; cbn. rewrite Hn.
+      intros; reflexivity.
   - destruct (s_closing s); inversion H; subst; [exact B|]. unfold B4; cbn. discriminate.
 Qed.
 
 Lemma exec_cb_B4 kind os : forall s s' e,
-  Sinv s -> no_busy os = true -> B4 s -> exec_cb kind s os = (s', e) -> B4 s'.
+  Sinv s -> okops (s_rearm s) os = true -> B4 s -> exec_cb kind s os = (s', e) -> B4 s'.
 Proof.
   induction os as [|o r IH]; intros s s' e I Hn B H; cbn [exec_cb] in H.
   - inversion H; subst; exact B.
   - cbn in Hn. apply andb_prop in Hn. destruct Hn as (Hn1 & Hn2).
     destruct (exec_simple kind s o) as [s1 e1] eqn:E1.
     destruct (exec_cb kind s1 r) as [s2 e2] eqn:E2. inversion H; subst; clear H.
-    eapply IH; [| exact Hn2 | | exact E2].
+    eapply IH; [| | | exact E2].
     + eapply exec_simple_flow; eauto.
+    + rewrite (exec_simple_rearm _ _ _ _ _ E1). exact Hn2.
     + eapply exec_simple_B4; eauto.
 Qed.
 
 Lemma step_B4 kind beh x o x' e :
-  Xinv x -> op_ok o -> s_ipc (sv x) = false -> no_busy_op o = true ->
-  (forall k, no_busy (beh k) = true) -> B4 (sv x) -> step kind x o beh = (x', e) -> B4 (sv x').
+  Xinv x -> op_ok o -> s_ipc (sv x) = false -> okop (s_rearm (sv x)) o = true ->
+  (forall k, okops (s_rearm (sv x)) (beh k) = true) -> B4 (sv x) -> step kind x o beh = (x', e) ->
+  B4 (sv x') /\ s_rearm (sv x') = s_rearm (sv x).
 Proof.
   intros X Ho Hi Hn Hb B H. destruct X as [I A O].
-  assert (Simple : forall o', no_busy_op o' = true ->
+  assert (Simple : forall o', okop (s_rearm (sv x)) o' = true ->
      (let (s', e0) := exec_simple kind (sv x) o' in
-      (mkSt s' (emf x) (acc_o x) (alloc_o x) (open_o x) (cbn x), e0)) = (x', e) -> B4 (sv x')).
+      (mkSt s' (emf x) (acc_o x) (alloc_o x) (open_o x) (cbn x), e0)) = (x', e) ->
+     B4 (sv x') /\ s_rearm (sv x') = s_rearm (sv x)).
   { intros o' Hn' H'. destruct (exec_simple kind (sv x) o') as [s1 e1] eqn:E1.
-    inversion H'; subst. cbn [sv]. eapply exec_simple_B4; eauto. }
+    inversion H'; subst. cbn [sv]. split; [eapply exec_simple_B4; eauto|eapply exec_simple_rearm; eauto]. }
   destruct o; cbn [step] in H;
     try match type of H with (let (_, _) := exec_simple _ _ ?o' in _) = _ => exact (Simple o' Hn H) end.
   - destruct (negb (s_ipc (sv x)) && s_pollin (sv x) && negb (s_closing (sv x)) && readable) eqn:G;
-      [|inversion H; subst; exact B].
+      [|inversion H; subst; auto].
     unfold server_io in H. destruct (accept_retry (acc_o x)) as [a r] eqn:Ea.
     destruct (accept_retry_ok _ _ _ O Ea) as (Oa & _).
-    destruct a; try (inversion H; subst; exact B).
+    destruct a; try (inversion H; subst; auto).
     + cbn in Oa.
       destruct (exec_cb kind (set_acc (sv x) f) (beh (cbn x))) as [s2 e2] eqn:Ec.
       inversion H; subst; clear H. cbn [sv].
@@ -743,41 +772,72 @@ Proof.
         destruct (Z.eqb_spec f (-1)); [lia|]. repeat constructor. exact Oa. }
       assert (B1 : B4 (set_acc (sv x) f)) by (unfold B4, set_acc; cbn; intros; lia).
       pose proof (exec_cb_B4 _ _ _ _ _ I1 (Hb _) B1 Ec) as B2.
-      destruct (Z.eqb_spec (s_acc s2) (-1)); [exact B2|].
-      unfold B4, set_pollin; cbn. intros; contradiction.
-    + destruct (emf x); [|inversion H; subst; exact B].
-      destruct (shed r) as [[es c] r']. destruct (next_bool (open_o x)). inversion H; subst; exact B.
-    + destruct (emf x); [|inversion H; subst; exact B].
-      destruct (shed r) as [[es c] r']. destruct (next_bool (open_o x)). inversion H; subst; exact B.
-  - rewrite Hi in H. inversion H; subst; exact B.
+      pose proof (exec_cb_rearm _ _ _ _ _ Ec) as R2. cbn [set_acc s_rearm] in R2.
+      destruct (Z.eqb_spec (s_acc s2) (-1)); [split; [exact B2|exact R2]|].
+      split; [unfold B4, set_pollin; cbn; intros; contradiction|exact R2].
+    + destruct (emf x); [|inversion H; subst; auto].
+      destruct (shed r) as [[es c] r']. destruct (next_bool (open_o x)). inversion H; subst; auto.
+    + destruct (emf x); [|inversion H; subst; auto].
+      destruct (shed r) as [[es c] r']. destruct (next_bool (open_o x)). inversion H; subst; auto.
+  - rewrite Hi in H. inversion H; subst; auto.
 Qed.
 
-Theorem rearm_partial kind ao al oo os beh :
-  Forall acc_ok ao -> Forall op_ok os -> no_busy os = true -> (forall k, no_busy (beh k) = true) ->
-  let s := sv (fst (run kind (init false ao al oo) os beh)) in
+(* A4 in both directions, in every reachable state of a server: for the repaired variant
+   (rx = true) without condition, for the current code (rx = false) as long as no uv_accept
+   is given a busy client handle *)
+Theorem rearm_gen rx kind ao al oo os beh :
+  Forall acc_ok ao -> Forall op_ok os -> okops rx os = true -> (forall k, okops rx (beh k) = true) ->
+  let s := sv (fst (run kind (init_v rx false ao al oo) os beh)) in
   s_closing s = false -> (s_pollin s = true <-> s_acc s = -1).
 Proof.
   intros Fa Fo Hn Hb.
-  assert (G : forall os x, Xinv x -> Forall op_ok os -> s_ipc (sv x) = false -> no_busy os = true ->
-     B4 (sv x) -> let x' := fst (run kind x os beh) in Xinv x' /\ B4 (sv x') /\ s_ipc (sv x') = false).
-  { clear os Fo Hn. induction os as [|o r IH]; intros x X F Hi Hn B; cbn [run].
+  assert (G : forall os x, Xinv x -> Forall op_ok os -> s_ipc (sv x) = false -> s_rearm (sv x) = rx ->
+     okops rx os = true -> B4 (sv x) ->
+     let x' := fst (run kind x os beh) in Xinv x' /\ B4 (sv x') /\ s_ipc (sv x') = false).
+  { clear os Fo Hn. induction os as [|o r IH]; intros x X F Hi Hr Hn B; cbn [run].
     - cbn. auto.
-    - inversion F as [|? ? Fo Fr]; subst. cbn in Hn. apply andb_prop in Hn. destruct Hn as (Hn1 & Hn2).
+    - pose proof (Forall_inv F) as Fo. pose proof (Forall_inv_tail F) as Fr.
+      cbn in Hn. apply andb_prop in Hn. destruct Hn as (Hn1 & Hn2).
       destruct (step kind x o beh) as [x1 e1] eqn:E1.
       destruct (step_flow _ _ _ _ _ _ X Fo E1) as (X1 & _ & Hi1).
-      pose proof (step_B4 _ _ _ _ _ _ X Fo Hi Hn1 Hb B E1) as B1.
-      specialize (IH x1 X1 Fr ltac:(congruence) Hn2 B1).
+      assert (Hn1' : okop (s_rearm (sv x)) o = true) by (rewrite Hr; exact Hn1).
+      assert (Hb' : forall k, okops (s_rearm (sv x)) (beh k) = true) by (intros k; rewrite Hr; apply Hb).
+      destruct (step_B4 _ _ _ _ _ _ X Fo Hi Hn1' Hb' B E1) as (B1 & R1).
+      assert (Hi1' : s_ipc (sv x1) = false) by congruence.
+      assert (Hr1 : s_rearm (sv x1) = rx) by congruence.
+      specialize (IH x1 X1 Fr Hi1' Hr1 Hn2 B1).
       destruct (run kind x1 r beh) as [x2 e2]. cbn [fst] in *. exact IH. }
-  destruct (G os (init false ao al oo) (init_inv _ _ _ _ Fa) Fo eq_refl Hn) as (X & B & Hi).
+  destruct (G os (init_v rx false ao al oo) (init_inv _ _ _ _ _ Fa) Fo eq_refl eq_refl Hn) as (X & B & Hi).
   { unfold B4; cbn. intros; reflexivity. }
   cbv zeta. intros Hc. split.
   - intros Hp. apply (xi_a _ X); assumption.
   - intros Ha. apply B; assumption.
 Qed.
 
+Lemma okops_true os : okops true os = true.
+Proof. induction os; cbn; auto. Qed.
+Lemma okops_false os : okops false os = no_busy os.
+Proof. reflexivity. Qed.
+
+Theorem rearm_fixed kind ao al oo os beh :
+  Forall acc_ok ao -> Forall op_ok os ->
+  let s := sv (fst (run kind (init_v true false ao al oo) os beh)) in
+  s_closing s = false -> (s_pollin s = true <-> s_acc s = -1).
+Proof.
+  intros Fa Fo. apply rearm_gen; auto using okops_true.
+Qed.
+
+Theorem rearm_partial kind ao al oo os beh :
+  Forall acc_ok ao -> Forall op_ok os -> no_busy os = true -> (forall k, no_busy (beh k) = true) ->
+  let s := sv (fst (run kind (init_v false false ao al oo) os beh)) in
+  s_closing s = false -> (s_pollin s = true <-> s_acc s = -1).
+Proof.
+  intros Fa Fo Hn Hb. apply rearm_gen; auto.
+Qed.
+
 Lemma rearm_refuted :
   exists ao os beh,
-    let s := sv (fst (run (fun _ => 0) (init false ao [] []) os beh)) in
+    let s := sv (fst (run (fun _ => 0) (init_v false false ao [] []) os beh)) in
     s_closing s = false /\ s_acc s = -1 /\ s_pollin s = false.
 Proof.
   exists [AFd 3], [ORun true; OAccept ClBusy], (fun _ => []). vm_compute. repeat split.
@@ -789,9 +849,9 @@ Lemma Qinv_meaning a :
   Qinv a <-> (0 < q_offset a <= q_size a)%nat /\ length (q_fds a) = q_size a /\ (q_size a mod 8 = 0)%nat.
 Proof. reflexivity. Qed.
 
-Theorem ipc_fifo kind ao al oo os beh :
+Theorem ipc_fifo rx kind ao al oo os beh :
   Forall acc_ok ao -> Forall op_ok os ->
-  let '(x, tr) := run kind (init true ao al oo) os beh in
+  let '(x, tr) := run kind (init_v rx true ao al oo) os beh in
   arrivals tr = departs tr ++ held (sv x) /\
   pending_count (sv x) = Z.of_nat (length (held (sv x))) /\
   pending_type kind (sv x) = match held (sv x) with [] => 0 | f :: _ => kind f end /\
@@ -799,21 +859,21 @@ Theorem ipc_fifo kind ao al oo os beh :
   (forall a, s_q (sv x) = Some a ->
      (0 < q_offset a <= q_size a)%nat /\ length (q_fds a) = q_size a /\ (q_size a mod 8 = 0)%nat).
 Proof.
-  intros Fa Fo. pose proof (fifo kind true ao al oo os beh Fa Fo) as H.
-  destruct (run kind (init true ao al oo) os beh) as [x tr] eqn:E. destruct H as (X & H).
-  destruct (run_flow _ _ _ _ _ _ (init_inv true ao al oo Fa) Fo E) as (_ & _ & Hi). cbn in Hi.
+  intros Fa Fo. pose proof (fifo rx kind true ao al oo os beh Fa Fo) as H.
+  destruct (run kind (init_v rx true ao al oo) os beh) as [x tr] eqn:E. destruct H as (X & H).
+  destruct (run_flow _ _ _ _ _ _ (init_inv rx true ao al oo Fa) Fo E) as (_ & _ & Hi). cbn in Hi.
   destruct X as [I A O]. split; [exact H|]. split; [apply pending_count_held; assumption|].
   split; [apply pending_type_head; assumption|]. destruct I as (A3 & Q & _). split; [exact A3|].
   intros a Ha. rewrite Ha in Q. exact Q.
 Qed.
 
-Theorem eagain_iff_none kind ipc ao al oo os beh c :
+Theorem eagain_iff_none rx kind ipc ao al oo os beh c :
   Forall acc_ok ao -> Forall op_ok os ->
-  let s := sv (fst (run kind (init ipc ao al oo) os beh)) in
+  let s := sv (fst (run kind (init_v rx ipc ao al oo) os beh)) in
   In (ERet UV_EAGAIN) (snd (uv_accept s c)) <-> held s = [].
 Proof.
-  intros Fa Fo. pose proof (fifo kind ipc ao al oo os beh Fa Fo) as H.
-  destruct (run kind (init ipc ao al oo) os beh) as [x tr]. destruct H as (X & _).
+  intros Fa Fo. pose proof (fifo rx kind ipc ao al oo os beh Fa Fo) as H.
+  destruct (run kind (init_v rx ipc ao al oo) os beh) as [x tr]. destruct H as (X & _).
   cbn [fst]. apply accept_eagain, (xi_s _ X).
 Qed.
 
